@@ -234,11 +234,14 @@ func tkSequenceCase(ops []tkOp, nicks, chans []string, desc string) Case {
 		obs := observe(t, nicks, chans)
 		cs.Reqs = append(cs.Reqs, "tk obs", "?tk specobs "+obs, "tk dump")
 		cs.Impl = append(cs.Impl, obs, "", state.VerifDump(t))
-		m := strings.Count(obs, ":") // rough size of the membership relation
+		m := 0 // size of the membership relation: entries in the channels' nick maps
+		if i := strings.Index(obs, "|chans=["); i >= 0 {
+			m = strings.Count(obs[i:], ":")
+		}
 		if m > maxMemb {
 			maxMemb = m
 		}
-		if maxMemb >= 4 && (o.name == "ReNick" || o.name == "DelNick" || o.name == "DelChannel" || o.name == "Dissociate" || o.name == "Wipe") && !strings.HasSuffix(ret, "nil") {
+		if maxMemb >= 2 && (o.name == "ReNick" || o.name == "DelNick" || o.name == "DelChannel" || o.name == "Dissociate" || o.name == "Wipe") && !strings.HasSuffix(ret, "nil") {
 			interesting = true
 		}
 	}
